@@ -69,6 +69,12 @@ func exec(line string) string {
 			cur, oth = oth, cur
 		case op == "r":
 			cur.Reset()
+		case op == "z": // BlockSize() (only the blake2b XOF has it)
+			bsr, ok := cur.(bx).XOF.(interface{ BlockSize() int })
+			if !ok {
+				return "bad-op"
+			}
+			outs = append(outs, fmt.Sprintf("z%d", bsr.BlockSize()))
 		case strings.HasPrefix(op, "sk"): // one Read of n bytes whose output is thrown away (long-range node offsets)
 			var n int
 			fmt.Sscanf(op[2:], "%d", &n)
@@ -216,7 +222,7 @@ func gen(g *hx.Gen) {
 					g.Stat("swap")
 				}
 			case 2:
-				if r.Chance(1, 4) { // Reset in read mode, then absorb something else and squeeze again
+				if r.Chance(1, 2) { // Reset in read mode (restores the keyed state), then absorb something else and squeeze again
 					k := r.Intn(100)
 					ops = append(ops, "r", fmt.Sprintf("w%d", k))
 					total += k
@@ -233,6 +239,10 @@ func gen(g *hx.Gen) {
 		}
 		if r.Chance(1, 3) {
 			ops = append(ops, "rd5", "rd0") // at / after the end
+		}
+		if alg == "b" && r.Chance(1, 30) {
+			ops = append(ops, "z")
+			g.Stat("blocksize")
 		}
 		if (length == 0 || length > 60000) && (r.Chance(1, 100) || (g.Thorough() && r.Chance(1, 30))) {
 			// node offsets beyond 2^16: skip far ahead (output discarded), then compare real output again
